@@ -329,9 +329,14 @@ async fn run_scenario_inner(rep: &mut Report, sub_seed: u64, table: Arc<Vec<Vec<
             phase: Phase::Source,
         })
         .collect();
+    let refresh_at = rng.below(5);
     dbg("S1");
     // S1: everything in PreCheck
     ck.probe_all("S1_precheck", &phases, &mut rng, random_n).await;
+    if (refresh_at == 1) && sc.refresh().await.is_ok() {
+        ck.rep.count("metadata_refreshes_mid_migration", 1);
+        ck.probe_all("S1_precheck_after_metadata_refresh", &phases, &mut rng, random_n).await;
+    }
 
     dbg("S2");
     // S2: a subset enters the blocking window
@@ -445,6 +450,10 @@ async fn run_scenario_inner(rep: &mut Report, sub_seed: u64, table: Arc<Vec<Vec<
         }
     }
     ck.probe_all("S3_preswitch_done", &phases, &mut rng, random_n).await;
+    if (refresh_at == 3) && sc.refresh().await.is_ok() {
+        ck.rep.count("metadata_refreshes_mid_migration", 1);
+        ck.probe_all("S3_preswitch_done_after_metadata_refresh", &phases, &mut rng, random_n).await;
+    }
 
     dbg("S4");
     // S4: FINALSWITCH for a subset
@@ -469,6 +478,10 @@ async fn run_scenario_inner(rep: &mut Report, sub_seed: u64, table: Arc<Vec<Vec<
         }
     }
     ck.probe_all("S4_some_committed_at_proxies", &phases, &mut rng, random_n / 2).await;
+    if (refresh_at == 0 || refresh_at == 4) && sc.refresh().await.is_ok() {
+        ck.rep.count("metadata_refreshes_mid_migration", 1);
+        ck.probe_all("S4_some_committed_at_proxies_after_metadata_refresh", &phases, &mut rng, random_n / 2).await;
+    }
 
     dbg("S5");
     // S5: everything through, coordinator commits, until the broker has no migration left
